@@ -226,7 +226,7 @@ Lemma fresh_item_ok4 inp (capsb : Prop) tcp pkt k v6 new :
   fresh_item tcp pkt k v6 new -> pkt = b_pkt (get_buf inp k) -> item_ok4 inp capsb tcp new pkt [k].
 Proof.
   intros Hf Hp. split; [eapply fresh_item_ok3; eauto|]. intros _ ->.
-  destruct Hf as [_ [_ [Hv [_ [_ [Hl [_ [_ [_ [Hkey [_ Htf]]]]]]]]]]]. destruct (Htf eq_refl) as [Hs [Hfl Hps]].
+  destruct Hf as [_ [_ [Hv [_ [_ [Hl [_ [_ [_ [Hkey [_ Htf]]]]]]]]]]]. destruct (Htf eq_refl) as [Hs [Hfl [Hps _]]].
   rewrite Hv. refine (conj Hkey (conj _ (conj Hfl (conj Hps (conj _ (conj _ _)))))).
   - rewrite Hs. reflexivity.
   - cbn [psh_last]. rewrite <- Hp. reflexivity.
@@ -279,7 +279,7 @@ Proof.
   destruct Hmo as [new [Hf [Hk2 [mode [Hp [Hmode [Hcan Hco]]]]]]].
   pose proof (merge_iph _ _ _ _ _ _ Hf Hk2 Hiph Hhd) as Hi.
   destruct Hf as [Hfi [Hfm [Hfv [Hfiph [Hft [Hfl0 [Hfg [Hfg1 [Hfmax [Hfkey [Hfh Htf]]]]]]]]]]].
-  destruct (Htf eq_refl) as [Hns [Hnfl Hnpsh]].
+  destruct (Htf eq_refl) as [Hns [Hnfl [Hnpsh _]]].
   assert (Hv : it_v6 it = v6) by (rewrite Hk2, Hfkey, flow_key_hd in Hhd; apply v6_flag_inj in Hhd; auto).
   destruct (coalesce_tcp_success _ _ _ _ _ _ _ _ _ _ _ _ Hco) as [[Sk [Sv [Si [Sip [St Sm]]]]] [Hb' [Hg' Hroom]]].
   pose proof (coalesce_tcp_seq _ _ _ _ _ _ _ _ _ _ _ _ Hco) as Sseq.
